@@ -125,6 +125,23 @@ func c09(c *Ctx) {
 			infos = append(infos, reqInfo{m, -1, -1, ai})
 		}
 	}
+	// the same questions after an edit that moves template text but leaves the generated code byte-identical
+	// (a blank line and a `-#` comment above the first dynamic line): the map in force must be the new one
+	docA2 := strings.Replace(docA, "\t%p= s\n", "\n\t-# note\n\t%p= s\n", 1)
+	realA2 := c.composeReal([]string{docA2})[docA2]
+	tA2 := tablesOf(realA2)
+	nMain := len(infos)
+	if realA2.Err == "-" {
+		ops = append(ops, POp{Op: "change", URI: uA, Text: docA2, Version: 2})
+		for _, m := range []string{"Hover", "Definition", "Completion"} {
+			for li, l := range strings.Split(docA2, "\n") {
+				for col := 0; col <= len(l); col++ {
+					ops = append(ops, POp{Op: "req", Method: m, URI: uA, Line: uint32(li), Char: uint32(col), Answer: []PLoc{answers[0].loc}})
+					infos = append(infos, reqInfo{m, li, col, 0})
+				}
+			}
+		}
+	}
 	log, err := c.runProxy(ops)
 	if err != nil || len(log) != len(ops) {
 		c.fail("C09/runner", fmt.Sprintf("the proxy did not complete the script: %v (%d of %d)", err, len(log), len(ops)), map[string]any{"ops": len(ops)})
@@ -133,6 +150,10 @@ func c09(c *Ctx) {
 	c.tieProxy([][]POp{ops}, [][][]PEvent{log})
 	for i, info := range infos {
 		evs := log[i+2]
+		if i >= nMain {
+			evs = log[i+3] // one change op precedes the second round
+			tA = tA2
+		}
 		c.Rep.OracleCases++
 		c.dist("method." + info.method)
 		c.distinct(fmt.Sprintf("%s/%d/%d/%d", info.method, info.line, info.col, info.ans))
